@@ -2394,6 +2394,16 @@ __make_evrdat(echs_event_t e, const echs_instant_t *d, size_t nd, bool exc)
 		}
 		/* now sort */
 		echs_instant_sort(rd, nd);
+		/* a recurrence set is a set, an instant listed twice
+		 * still occurs once */
+		with (size_t nu = 1U) {
+			for (size_t i = 1U; i < nd; i++) {
+				if (!echs_instant_eq_p(rd[i], rd[nu - 1U])) {
+					rd[nu++] = rd[i];
+				}
+			}
+			nd = nu;
+		}
 		/* now spread out the instants as echs events */
 		for (size_t i = 0U; i < nd; i++) {
 			e.from = echs_instant_rescale(rd[i], cal);
